@@ -1,6 +1,6 @@
 /-
   Cosi.Model.CtrlMachine — trace inclusion for the engine `ctrl`: is a recorded write of the real
-  Transform / Cleanup controller a write that the machine of Cosi.Model.Transform /
+  Transform / QTransform / Cleanup controller a write that the machine of Cosi.Model.Transform /
   Cosi.Model.Cleanup can make from some pass state?
 
   `TF.writeOk` / `CL.writeOk` (in the machines' modules) are decidable predicates on an abstract store before and after one
@@ -14,6 +14,7 @@
   (n1, CIn, id) / (n1, COut, id) / dependents labelled parent=<id>) to the machines' stores.
 -/
 import Cosi.Model.Cleanup
+import Cosi.Model.QTransform
 import Cosi.Model.CtrlMonitor
 
 
@@ -23,6 +24,10 @@ open Cosi.TF (Ph AIn AOut)
 /-- the ids the engine uses for inputs / mapped outputs, and for dependents -/
 def pairIds : List String := ["a", "b"]
 def depIds : List String := ["o1", "o2", "o3"]
+
+def qtPh : Phase → QT.Ph
+  | .running => .running
+  | .tearingDown => .tearingDown
 
 def absPh : Phase → Ph
   | .running => .running
@@ -79,6 +84,20 @@ def machineViolations (c : Cfg) (actor : String) (ok : Bool) (before after : Sto
         pairIds.all fun q => q == p ||
           (absIn c before q == absIn c after q &&
            (List.range hs.length).all fun j => (TF.allFin 3).all fun k => clDeps c before q j k == clDeps c after q j k))
+    then [] else ["not_a_machine_write"]
+  else if c.kind == "qtransform" || c.kind == "qtransform-ignore" then
+    -- the QTransform machine works on one pair per reconcile: the write changes one pair, by a machine write
+    let pairOf (s : Store) (id : String) : QT.Pair :=
+      { inp := (s.get (inKey id)).map fun r =>
+          { phase := qtPh r.phase, ctlFin := r.fins.contains c.name, foreign := r.fins.any (· != c.name) },
+        out := ((s.get (outKey id)).filter (·.owner == c.name)).map fun r =>
+          { phase := qtPh r.phase, foreign := !r.fins.isEmpty,
+            fresh := match s.get (inKey id) with
+              | some i => r.spec == "t:" ++ i.spec
+              | none => false } }
+    if pairIds.all (fun p => pairOf before p == pairOf after p) ||
+       pairIds.any (fun p => QT.writeOk (pairOf before p) (pairOf after p) &&
+         pairIds.all fun q => q == p || pairOf before q == pairOf after q)
     then [] else ["not_a_machine_write"]
   else []
 
